@@ -104,3 +104,23 @@ Proof.
   destruct (inc_path_spec cwd rootdir d i H) as (k & Hk & E & Hp). rewrite E.
   apply resolve_render; [lia|exact Hp].
 Qed.
+
+(* ---------- the code BEFORE the repair (kept so that the defect stays documented) ---------- *)
+(* include_paths = abspath(join(rootdir, p)): the original line of load_database *)
+Definition inc_path_root_join (cwd rootdir i : str) : str := abspath cwd (join rootdir i).
+
+Lemma inc_path_root_join_wrong :
+  exists cwd rootdir d i,
+    isabs cwd = true /\
+    forall k, inc_path_root_join cwd rootdir i
+              <> render k (resolve (s_dir (resolve (cwdloc cwd) rootdir) d) i).
+Proof.
+  exists (s "/w"), (s "/w/root"), (Some (s "build")), (s "inc").
+  split; [reflexivity|]. intros k E.
+  apply (f_equal (resolve [])) in E.
+  destruct k as [|k].
+  - vm_compute in E. discriminate.
+  - rewrite resolve_render in E; [|lia|].
+    + vm_compute in E. discriminate.
+    + apply resolve_proper. unfold s_dir. repeat apply resolve_proper. apply cwdloc_proper.
+Qed.
